@@ -18,6 +18,7 @@ type Exec struct {
 	Body    func()
 	Observe func(res *mc.Result) (outcome string, violation string)
 	OnPoint func(s *mc.Sched)
+	Cleanup func() // always called after the execution (also when it was abandoned)
 }
 
 // Scenario creates a fresh Exec for every execution.
@@ -43,6 +44,7 @@ type Stats struct {
 	Races        int
 	RacePairs    map[string]int
 	RacesBranch  int // DPOR: number of backtrack points added
+	SleepBlocked int // DPOR: executions abandoned because every continuation was asleep
 	Cut          int
 	Exhaustive   bool
 	CapHit       string
@@ -75,6 +77,7 @@ func (s *Stats) Merge(o *Stats) {
 	s.Panics += o.Panics
 	s.Races += o.Races
 	s.RacesBranch += o.RacesBranch
+	s.SleepBlocked += o.SleepBlocked
 	s.Cut += o.Cut
 	if !o.Exhaustive {
 		s.Exhaustive = false
@@ -129,6 +132,9 @@ func runPrefix(sc Scenario, prefix []int, o Opts, record bool) runOut {
 		res.Internal = bad
 	}
 	out, viol := ex.Observe(res)
+	if ex.Cleanup != nil {
+		ex.Cleanup()
+	}
 	return runOut{res: res, outcome: out, viol: viol, choices: choices}
 }
 
@@ -178,6 +184,9 @@ func S0(sc Scenario, o Opts) *Stats {
 	ex := sc()
 	res := mc.Run(ex.Body, mc.Options{Races: o.Races, MaxEvents: o.MaxEvents, OnPoint: ex.OnPoint, Sites: o.Sites})
 	out, viol := ex.Observe(res)
+	if ex.Cleanup != nil {
+		ex.Cleanup()
+	}
 	st.account(runOut{res: res, outcome: out, viol: viol})
 	return st
 }
@@ -231,44 +240,50 @@ func FullDFS(sc Scenario, o Opts) *Stats {
 
 type node struct {
 	enabled   []int
+	pend      map[int]mc.Pending
 	chosen    int
 	backtrack map[int]bool
 	done      map[int]bool
+	sleep     map[int]bool // goroutines whose exploration from this node is redundant
 }
 
 func sendSide(k mc.OpKind) bool { return k == mc.OpSend || k == mc.OpClose }
 
-// dependent reports whether two events of different goroutines on the same
+// depOps reports whether two operations of different goroutines on the same
 // object do not commute.
-func dependent(a, b mc.Event) bool {
-	if a.Obj != b.Obj || a.Obj < 0 {
+func depOps(ak mc.OpKind, aobj, aarg int, bk mc.OpKind, bobj, barg int) bool {
+	if aobj != bobj || aobj < 0 {
 		return false
 	}
 	switch {
-	case sendSide(a.Kind) && sendSide(b.Kind):
+	case sendSide(ak) && sendSide(bk):
 		return true
-	case a.Kind == mc.OpRecv && b.Kind == mc.OpRecv:
+	case ak == mc.OpRecv && bk == mc.OpRecv:
 		return true
-	case isMu(a.Kind) && isMu(b.Kind):
-		return !(a.Kind == mc.OpRUnlock && b.Kind == mc.OpRUnlock)
-	case a.Kind == mc.OpOnce && b.Kind == mc.OpOnce:
+	case isMu(ak) && isMu(bk):
+		// reader-side operations commute with each other; anything involving the writer side conflicts
+		rd := func(k mc.OpKind) bool { return k == mc.OpRLock || k == mc.OpRUnlock }
+		return !(rd(ak) && rd(bk))
+	case ak == mc.OpOnce && bk == mc.OpOnce:
 		return true
-	case a.Kind == mc.OpAtomic && b.Kind == mc.OpAtomic:
+	case ak == mc.OpAtomic && bk == mc.OpAtomic:
 		return true
-	case a.Kind == mc.OpWgAdd && b.Kind == mc.OpWgWait, a.Kind == mc.OpWgWait && b.Kind == mc.OpWgAdd:
-		if a.Kind == mc.OpWgAdd {
-			return a.Arg > 0
-		}
-		return b.Arg > 0
+	case ak == mc.OpWgAdd && bk == mc.OpWgWait:
+		return aarg > 0
+	case ak == mc.OpWgWait && bk == mc.OpWgAdd:
+		return barg > 0
 	}
 	return false
 }
+
+func dependent(a, b mc.Event) bool { return depOps(a.Kind, a.Obj, a.Arg, b.Kind, b.Obj, b.Arg) }
 
 func isMu(k mc.OpKind) bool {
 	return k == mc.OpLock || k == mc.OpUnlock || k == mc.OpRLock || k == mc.OpRUnlock
 }
 
-// DPOR explores one representative of every Mazurkiewicz trace (S1).
+// DPOR explores one representative of every Mazurkiewicz trace (S1): stateless
+// dynamic partial-order reduction (Flanagan-Godefroid) with sleep sets.
 func DPOR(sc Scenario, o Opts) *Stats {
 	st := newStats()
 	if o.MaxExec == 0 {
@@ -300,29 +315,60 @@ func DPOR(sc Scenario, o Opts) *Stats {
 				choices = append(choices, 0)
 				return 0
 			}
-			ids := make([]int, len(en))
+			n := &node{enabled: make([]int, len(en)), pend: make(map[int]mc.Pending, len(en)), backtrack: map[int]bool{}, done: map[int]bool{}, sleep: map[int]bool{}}
 			for k, g := range en {
-				ids[k] = g.ID
+				n.enabled[k] = g.ID
+				n.pend[g.ID] = g.PendingOp()
 			}
-			n := &node{enabled: ids, chosen: ids[0], backtrack: map[int]bool{ids[0]: true}, done: map[int]bool{ids[0]: true}}
+			if i > 0 {
+				// sleep set at entry: what was asleep or already explored at the parent and is independent of the step taken
+				par := stack[i-1]
+				ev := par.pend[par.chosen]
+				for q := range par.sleep {
+					if pq, ok := par.pend[q]; ok && q != par.chosen && !depOps(pq.Kind, pq.Obj, pq.Arg, ev.Kind, ev.Obj, ev.Arg) {
+						n.sleep[q] = true
+					}
+				}
+			}
+			pick := -1
+			for k, g := range en {
+				if !n.sleep[g.ID] {
+					pick = k
+					break
+				}
+			}
+			if pick < 0 {
+				return -1 // sleep-set blocked: every continuation is covered elsewhere
+			}
+			n.chosen = n.enabled[pick]
+			n.backtrack[n.chosen] = true
+			n.done[n.chosen] = true
 			stack = append(stack, n)
-			choices = append(choices, 0)
-			return 0
+			choices = append(choices, pick)
+			return pick
 		}
 		res := mc.Run(ex.Body, mc.Options{Chooser: chooser, Record: true, Clocks: true, Races: o.Races, MaxEvents: o.MaxEvents, OnPoint: ex.OnPoint, Sites: o.Sites})
 		if bad != "" && res.Internal == "" {
 			res.Internal = bad
 		}
-		out, viol := ex.Observe(res)
-		st.account(runOut{res: res, outcome: out, viol: viol, choices: choices})
+		if res.Aborted {
+			st.SleepBlocked++
+		} else {
+			out, viol := ex.Observe(res)
+			st.account(runOut{res: res, outcome: out, viol: viol, choices: choices})
+			if st.Executions == 1 {
+				st.SampleTrace = FormatTrace(res, 40)
+			}
+		}
+		if ex.Cleanup != nil {
+			ex.Cleanup()
+		}
 		if res.Internal != "" {
+			st.Internal = res.Internal
 			st.Exhaustive = false
 			break
 		}
-		if st.Executions == 1 {
-			st.SampleTrace = FormatTrace(res, 40)
-		}
-		// race analysis on the trace: for every event find the latest dependent,
+		// race analysis on the executed trace: for every event find the latest dependent,
 		// not happens-before-ordered event of another goroutine
 		tr := res.Trace
 		if len(tr) > len(stack) {
@@ -366,14 +412,15 @@ func DPOR(sc Scenario, o Opts) *Stats {
 				byObj[e.Obj] = append(lst, j)
 			}
 		}
-		// truncate the stack to the executed length and find the deepest node with work left
+		// find the deepest node with work left; an explored choice goes to sleep at its node
 		stack = stack[:len(tr)]
 		k := len(stack) - 1
 		for ; k >= 0; k-- {
 			nd := stack[k]
+			nd.sleep[nd.chosen] = true
 			next := -1
 			for _, g := range nd.enabled {
-				if nd.backtrack[g] && !nd.done[g] {
+				if nd.backtrack[g] && !nd.done[g] && !nd.sleep[g] {
 					next = g
 					break
 				}
@@ -437,5 +484,5 @@ func (s *Stats) OutcomeKeys() []string {
 
 // Describe renders a one-line summary.
 func (s *Stats) Describe() string {
-	return fmt.Sprintf("exec=%d events=%d outcomes=%d deadlocks=%d panics=%d races=%d branches=%d exhaustive=%v %s", s.Executions, s.Events, len(s.Outcomes), s.Deadlocks, s.Panics, s.Races, s.RacesBranch, s.Exhaustive, strings.TrimSpace(s.CapHit+" "+s.Internal))
+	return fmt.Sprintf("exec=%d sleepblocked=%d events=%d outcomes=%d deadlocks=%d panics=%d races=%d branches=%d exhaustive=%v %s", s.Executions, s.SleepBlocked, s.Events, len(s.Outcomes), s.Deadlocks, s.Panics, s.Races, s.RacesBranch, s.Exhaustive, strings.TrimSpace(s.CapHit+" "+s.Internal))
 }
